@@ -149,7 +149,7 @@ class _Rec(pickle._Unpickler):
     """pure-Python unpickler that records (depth, mark positions, memo keys) after every opcode"""
 
     def __init__(self, data):
-        super().__init__(io.BytesIO(data))
+        super().__init__(data if hasattr(data, "read") else io.BytesIO(data))
         self.log = []
         self.steps = []
         self._gc = {}
